@@ -153,3 +153,19 @@ Proof.
   - apply HM. apply existsb_exists in E as (m & Hm & Em). apply String.eqb_eq in Em. subst. exact Hm.
   - apply (entry_ok_weaken (fun _ => True)); [trivial|]. apply (autos_sound a b _ HA). apply filter_In. split; [exact Hin|]. rewrite Hi, E. reflexivity.
 Qed.
+
+(* ---- only lowp may approximate: outside the entries named *_lowp no traced kernel contains a reciprocal or reciprocal-square-root
+   instruction (in the real semantics Rcp / Rsqrt are exact, so the comparison theorems cannot see an approximation; this
+   syntactic statement does) *)
+Fixpoint approx_free (e : expr) : bool :=
+  match e with
+  | U Rcp _ _ | U Rsqrt _ _ => false
+  | U _ _ x | Tst _ _ x | LNot x | Cv _ _ x => approx_free x
+  | B _ _ x y | Cmp _ _ x y | LAnd x y | LOr x y => approx_free x && approx_free y
+  | Fma _ x y z => approx_free x && approx_free y && approx_free z
+  | _ => true
+  end.
+Fixpoint approx_free_tree (t : tree) : bool :=
+  match t with Leaf p o => forallb approx_free p && forallb approx_free o | Br c a b => approx_free c && approx_free_tree a && approx_free_tree b | Abort _ => true end.
+Definition is_lowp_name (nm : string) : bool := existsb (String.eqb nm) ["sqrt4_lowp"; "inversesqrt4_lowp"; "div4_lowp"]%string.
+Definition only_lowp_approximates (c : cat) : bool := forallb (fun e => is_lowp_name (fst e) || approx_free_tree (snd e)) c.
